@@ -80,14 +80,12 @@ func runC08(rc *RunCtx) {
 		cc.Close()
 		out := append([]byte(nil), cc.Peer().Wrote...)
 		S := key.EK.SaltSize()
+		if (string(buf[:n]) != string(down) || len(out) < S) && freshRefusalExcused(rc, key, cc.Wrote) {
+			continue
+		}
 		if string(buf[:n]) != string(down) || len(out) < S {
 			rc.Failf("collect-failed", "connection %d under %s did not relay the target's %d bytes (got %d, server wrote %d raw bytes)", i, key, len(down), n, len(out))
 			continue
-		}
-		for _, m := range srv.M.tcpFor(cc.Rec.ID) {
-			if cl := m.first("closed"); cl != nil && cl.Status == "ERR_REPLAY_SERVER" {
-				rc.Failf("client-salt-refused-as-server-salt", "an ordinary client handshake under %s was refused as a reflected server salt", key)
-			}
 		}
 		recs = append(recs, &rec{key: key, out: out, salt: string(out[:S])})
 	}
@@ -115,8 +113,10 @@ func runC08(rc *RunCtx) {
 		finAt     time.Duration
 		port      int
 		done      bool
+		key       *Key // wantOK: the key the stream is valid under
 	}
 	var rs []*refl
+	dials0 := len(w.Dials)
 	usedForeign := map[string]bool{}
 	nR := 1 + G.Draw(5)
 	for i := 0; i < nR && len(recs) > 0; i++ {
@@ -165,6 +165,7 @@ func runC08(rc *RunCtx) {
 			})
 			x.wire = enc.Chunk(socksAddr(fmt.Sprintf("%s:%d", tgtIP, port)))
 			x.wantOK = true
+			x.key = other
 			x.desc = fmt.Sprintf("client stream under %s carrying a salt the server issued for %s", other.ID, src.key.ID)
 		}
 		if !x.wantOK {
@@ -234,8 +235,14 @@ func runC08(rc *RunCtx) {
 		se := x.cc.Peer()
 		if x.wantOK {
 			rc.Probe("foreign_salt_presented")
-			if st != "OK" {
-				rc.Failf("foreign-salt-refused:"+st, "reflection %d (%s): expected to be served, got %s", i, x.desc, st)
+			served := false
+			for _, d := range w.Dials {
+				if d.Port == x.port {
+					served = true
+				}
+			}
+			if !served && !freshRefusalExcused(rc, x.key, x.wire) {
+				rc.Failf("foreign-salt-refused:"+st, "reflection %d (%s): expected to be served, but its target was never contacted (status %s)", i, x.desc, st)
 			}
 			continue
 		}
@@ -251,24 +258,45 @@ func runC08(rc *RunCtx) {
 		if n := len(se.Wrote); n != 0 {
 			rc.Failf("reflection-answered", "reflection %d (%s): server wrote %d bytes back", i, x.desc, n)
 		}
-		for _, d := range w.Dials {
-			if d.At >= x.connectAt && d.Port == x.port {
-				rc.Failf("reflection-dialed", "reflection %d (%s): a target was dialed", i, x.desc)
-			}
-		}
 		if _, rst := x.cc.Has("rst-recv"); rst {
 			rc.Failf("reflection-reset", "reflection %d (%s): the connection was reset", i, x.desc)
 		}
+		// not before the client closes or the handshake timeout elapses, and no
+		// later than the deadline (a server that holds a half-closed probe until
+		// the deadline is as good as one that closes on the client's FIN)
 		endAt, ok := x.cc.Has("fin-recv")
-		want := x.connectAt + T
-		if x.fin {
-			want = x.finAt
+		deadline := x.connectAt + T
+		notBefore := deadline
+		if x.fin && x.finAt < deadline {
+			notBefore = x.finAt
 		}
 		if !ok {
 			rc.Failf("reflection-never-closed", "reflection %d (%s): server never closed", i, x.desc)
-		} else if endAt < want || endAt > want+skew {
-			rc.Failf("reflection-close-time", "reflection %d (%s): server closed at %v, expected %v (timeout %v, client FIN=%v)", i, x.desc, endAt, want, T, x.fin)
+		} else if endAt < notBefore || endAt > deadline+skew {
+			rc.Failf("reflection-close-time", "reflection %d (%s): server closed at %v, expected within [%v, %v] (timeout %v, client FIN=%v at %v)", i, x.desc, endAt, notBefore, deadline+skew, T, x.fin, x.finAt)
 		}
+	}
+	// no reflected recording contains a readable destination: during the
+	// reflection phase only the served foreign-salt streams may dial, once each
+	okPort := map[int]int{}
+	unclaimed := false
+	for _, x := range rs {
+		if x.wantOK {
+			okPort[x.port] = 1
+		} else if !x.wantRefl && len(x.wire) >= 50 {
+			// output under a cipher with a 16-byte salt is not marked: presented back
+			// it decrypts as an ordinary stream and may name any destination
+			unclaimed = true
+		}
+	}
+	for _, d := range w.Dials[dials0:] {
+		if unclaimed {
+			break
+		}
+		if okPort[d.Port] == 0 {
+			rc.Failf("reflection-dialed", "a target (port %d) was dialed during the reflection phase although no presented stream that must be served names it", d.Port)
+		}
+		okPort[d.Port]--
 	}
 	srv.Stop()
 	simrt.Quiesce()
